@@ -305,6 +305,67 @@ func genRefused(r *rng.R, idx int) MemberSpec {
 	return m
 }
 
+// genSrcGroup appends a regular file (staged under its own name, or only reachable through
+// src=) and one to three add-files entries whose src= resolves to that very path inside the
+// build root -- written as $$stageroot/..., absolute or relative.  The inode is singly or
+// multiply linked (a second unstaged name, or a staged hard link); every entry is an
+// independent copy and may carry its own mod=/uid=/gid=.  Names sort before and after the
+// source's name.
+func genSrcGroup(r *rng.R, in *Input, seen map[string]bool) {
+	dirs := []string{"/bin", "/etc", "/opt/t", "/usr/local/lib", "/home/u", "/sbin"}
+	prefixes := []string{"0a", "A", "plainsu", "su", "su.copy", "zz", "~z"}
+	name := func() B {
+		for {
+			n := fmt.Sprintf("%s/%s%d", dirs[r.Intn(len(dirs))], prefixes[r.Intn(len(prefixes))], len(in.Members))
+			if r.Chance(1, 6) {
+				n = fmt.Sprintf("%s/%s", dirs[r.Intn(len(dirs))], prefixes[r.Intn(len(prefixes))])
+			}
+			if !seen[n] {
+				seen[n] = true
+				return B(n)
+			}
+		}
+	}
+	base := len(in.Members)
+	b := MemberSpec{Name: name(), How: "line", LType: "file"}
+	b.Obj = genObj(r, "reg")
+	b.Obj.Perm = []uint32{04755, 0644, 0600, 02755, 06711, 0755, 04711}[r.Intn(7)]
+	b.Obj.ExtraLink = r.Chance(2, 3)
+	switch r.Intn(5) {
+	case 0:
+		b.How = "pkg"
+	case 1:
+		b.LType = "tbd"
+	case 2: // the source has no entry of its own: it is only the target of src= options
+		b.Src = "stageroot"
+	}
+	if b.Src == "" && b.How == "line" && b.LType == "file" && r.Chance(1, 4) {
+		b.Mod = genMod(r)
+	}
+	in.Members = append(in.Members, b)
+	for k := 1 + r.Intn(3); k > 0; k-- {
+		a := MemberSpec{Name: name(), How: "line", LType: "file", SrcOf: base + 1}
+		a.Src = []string{"stageroot", "stageroot", "abs", "rel"}[r.Intn(4)]
+		a.Obj = genObj(r, "reg")
+		if r.Chance(1, 2) {
+			a.Mod = genMod(r)
+		}
+		if r.Chance(1, 2) {
+			a.HasUid, a.Uid = true, uint64([]uint32{0, 7, 1000, 65534, 2097152}[r.Intn(5)])
+		}
+		if r.Chance(1, 3) {
+			a.HasGid, a.Gid = true, uint64([]uint32{0, 7, 100, 65534}[r.Intn(4)])
+		}
+		in.Members = append(in.Members, a)
+	}
+	if b.Src == "" && r.Chance(1, 4) { // a staged hard link of the source as well
+		f := MemberSpec{Name: name(), How: []string{"pkg", "line"}[r.Intn(2)], LType: "file"}
+		f.Obj = genObj(r, "reg")
+		f.Obj.LinkTo = base
+		in.Members = append(in.Members, f)
+	}
+}
+
 func genInput(r *rng.R, i int, tier string) Input {
 	in := Input{}
 	in.StaticDev = r.Chance(1, 4)
@@ -335,6 +396,10 @@ func genInput(r *rng.R, i int, tier string) Input {
 				}
 			}
 		}
+	}
+	// several entries copied (src=) from one inode that lives inside the build root
+	if i%5 == 1 || r.Chance(1, 5) {
+		genSrcGroup(r, &in, seen)
 	}
 	if r.Chance(1, 12) {
 		in.Members = append(in.Members, genRefused(r, len(in.Members)))
